@@ -224,7 +224,7 @@ Proof.
     destruct (_ <? _); [inversion 1; congruence|]. destruct (_ <? _); inversion 1; subst; congruence.
   - unfold lk_delegate. destruct (negb _); [inversion 1; congruence|]. destruct (x <=? 0); [inversion 1; congruence|].
     destruct (_ <? _); [inversion 1; congruence|]. destruct (_ <? _); inversion 1; subst; congruence.
-  - unfold lk_undelegate. destruct (_ || _); inversion 1; subst; congruence.
+  - unfold lk_undelegate. destruct (x <=? 0); inversion 1; subst; congruence.
   - unfold lk_complete. destruct (_ || _); inversion 1; subst; congruence.
   - unfold lk_slash. destruct (_ || _); inversion 1; subst; congruence.
   - destruct (dt <? 0); inversion 1; subst; congruence.
@@ -250,10 +250,10 @@ Proof.
 Qed.
 
 Lemma lk_undelegate_ok s x s' : lk_undelegate s x = (s', LK_OK) ->
-  0 < x <= lk_deleg s /\ s' = mklk (lk_a s) (lk_bal s) (lk_deleg s - x) (lk_unb s + x) (lk_now s) (lk_bond s).
+  0 < x /\ s' = mklk (lk_a s) (lk_bal s) (Z.max 0 (lk_deleg s - x)) (lk_unb s + x) (lk_now s) (lk_bond s).
 Proof.
-  unfold lk_undelegate. destruct (Z.leb_spec x 0); cbn [orb]; [discriminate|].
-  destruct (Z.ltb_spec (lk_deleg s) x); [discriminate|]. intros Heq; inversion Heq; subst. split; [lia|reflexivity].
+  unfold lk_undelegate. destruct (Z.leb_spec x 0); [discriminate|].
+  intros Heq; inversion Heq; subst. split; [lia|reflexivity].
 Qed.
 
 Lemma lk_complete_ok s y s' : lk_complete s y = (s', LK_OK) ->
